@@ -255,18 +255,37 @@ func (s *Shell) handleWINCH(ctx context.Context) error {
 /* handleOutput handles reading from s.och and writing to s.t */
 func (s *Shell) handleOutput(ctx context.Context) error {
 	var (
-		cl CLine
-		ok bool
+		cl   CLine
+		ok   bool
+		left = -1 /* Lines to show after ctx is done. */
 	)
 	for {
-		/* Try to grab some output. */
-		select {
-		case <-ctx.Done():
+		/* Once we're told to stop, don't lose what's already been sent
+		to us, like the note that the last shell is gone, but don't
+		wait for more, either. */
+		if 0 > left && nil != ctx.Err() {
+			left = len(s.och)
+		}
+		if 0 == left {
 			return context.Cause(ctx)
-		case cl, ok = <-s.och:
-			if !ok {
-				return ErrOutputClosed
+		}
+		/* Try to grab some output. */
+		if 0 < left {
+			left--
+			select {
+			case cl, ok = <-s.och:
+			default:
+				return context.Cause(ctx)
 			}
+		} else {
+			select {
+			case <-ctx.Done():
+				continue
+			case cl, ok = <-s.och:
+			}
+		}
+		if !ok {
+			return ErrOutputClosed
 		}
 		/* Set the prompt if we have one. */
 		if p := cl.Prompt; "" != p {
